@@ -337,20 +337,21 @@ def round_order(thr, limit=400000):
                 rets.append((wnote[0], c.e.seq, tid, wnote[1]))
     wakes.sort(key=lambda w: w["note"])
     notes = [w["note"] for w in wakes]
-    for (w0, r0, xt, xj) in rets:
+    # one wake takes effect at one instant: it must lie after the futex_wait note and before the return of every sleeper it is
+    # designated for (lo/hi = the interval still possible for that instant)
+    for (w0, r0, xt, xj) in sorted(rets):
         hi = bisect.bisect_left(notes, r0)          # wakes with note < r0
         lo = bisect.bisect_right(notes, w0)         # wakes with note <= w0
-        chosen = None
-        if hi > lo:
-            chosen = wakes[lo]                       # the first wake noted while the sleeper was in futex_wait
-        else:
-            for k in range(lo - 1, -1, -1):          # else the most recent earlier wake that was still in flight
-                if wakes[k]["next"] > w0:
-                    chosen = wakes[k]
-                    stamp[chosen["key"]] = max(stamp[chosen["key"]], w0 + 0.5)
-                    break
-        if chosen is not None:                       # that wake takes effect after the sleeper's futex_wait note
-            deps.setdefault(chosen["key"], []).append((xt, xj))
+        cands = list(range(lo, hi)) + [k for k in range(lo - 1, -1, -1) if wakes[k]["next"] > w0]
+        for k in cands:
+            w = wakes[k]
+            a, b = max(w.get("lo", w["note"]), w0), min(w.get("hi", w["next"]), r0)
+            if a < b:
+                w["lo"], w["hi"] = a, b
+                if w["note"] <= w0:
+                    stamp[w["key"]] = max(stamp[w["key"]], w0 + 0.5)
+                deps.setdefault(w["key"], []).append((xt, xj))
+                break
     fallback = [tid for (_, tid) in sorted((stamp[(tid, j)], tid) for tid, t in th.items() for j in range(len(t)))]
 
     def cls(e):
@@ -401,9 +402,25 @@ def round_order(thr, limit=400000):
     def xcopy(x):
         return {"ui": x["ui"], "lst": list(x["lst"]), "held": {k: list(v) for k, v in x["held"].items()}, "fired": set(x["fired"])}
 
+    # a dispatch_group_async_f work item starts running only after the enter of the call that submitted it
+    enter_of = {}
+    for tid, t in th.items():
+        for j, c in enumerate(t):
+            if c.e.kind == 100 and c.e.a == 5:
+                for j2 in range(j + 1, len(t)):
+                    if t[j2].e.kind == 7 and t[j2].e.off == 0:
+                        enter_of[c.e.b] = (tid, j2)
+                        break
+                    if t[j2].e.kind >= 100:
+                        break
+
     def user_ok(tid, j, e):
         if X["ui"] >= len(users) or users[X["ui"]][1:] != (tid, j):
             return False
+        if e.kind == 102 and e.a == 5 and e.b in enter_of:
+            ct, cj = enter_of[e.b]
+            if pos[ct] <= cj:
+                return False
         return not (e.kind == 102 and e.a == 4) or e.b in X["fired"]
     pos = {t: 0 for t in tids}
     slp = {t: "A" for t in tids}
